@@ -74,6 +74,8 @@ macro_rules! dispatch {
             "C16" => $f(&props::c16::C16 $(, $arg)*),
             "C03" => $f(&props::c03::C03 $(, $arg)*),
             "C04" => $f(&props::c04::C04 $(, $arg)*),
+            "C05" => $f(&props::c05::C05 $(, $arg)*),
+            "C07" => $f(&props::c07::C07 $(, $arg)*),
             other => {
                 eprintln!("unknown property {}", other);
                 3
